@@ -115,6 +115,29 @@ theorem mem_valPorts (e : Err) (a b : F) (h q t : Int) :
 
 /-- Exact membership in a first-error list: reported by the head, or the head passed and the
 rest reports it. -/
+@[simp] theorem valSrvProto_eq_nil (fp fd : F) (p : String) :
+    valSrvProto fp fd p = [] ↔ knownProto p = true ∧ p ≠ "dnscrypt" := by
+  unfold valSrvProto
+  split
+  · simp_all
+  · split <;> simp_all
+
+@[simp] theorem mem_valSrvProto (e : Err) (fp fd : F) (p : String) :
+    e ∈ valSrvProto fp fd p ↔
+      (knownProto p = false ∧ e = (fp, .enum)) ∨ (knownProto p = true ∧ p = "dnscrypt" ∧ e = (fd, .cross)) := by
+  unfold valSrvProto
+  split
+  · simp_all
+  · split <;> simp_all
+
+@[simp] theorem valTls_eq_nil (c : Config) : valTls c = [] ↔ c.pTls = needsTls c := by
+  unfold valTls sect; cases needsTls c <;> cases c.pTls <;> simp
+
+@[simp] theorem mem_valTls (e : Err) (c : Config) :
+    e ∈ valTls c ↔ (needsTls c = true ∧ c.pTls = false ∧ e = (.sgTls, .noValue)) ∨
+      (needsTls c = false ∧ c.pTls = true ∧ e = (.sgTls, .cross)) := by
+  unfold valTls sect; cases needsTls c <;> cases c.pTls <;> simp
+
 theorem mem_firstOf_cons (e : Err) (x : List Err) (r : List (List Err)) :
     e ∈ firstOf (x :: r) ↔ e ∈ x ∨ (x = [] ∧ e ∈ firstOf r) := by
   cases x with
@@ -146,7 +169,7 @@ set_option maxHeartbeats 4000000 in
 theorem accepted_meets (c : Config) (h : validate false c = []) (f : F) : violates c f = false := by
   simp [validate, valRatelimit, valAllow, valConn, valOpts, valKeyLen, valUpstream, valCache, valDnsdb,
     valDns, valBackend, valGeo, valKv_eq_nil, valCheck, valWeb, valSb, valFilters, valIface, valNetwork,
-    valQueryLog, valFltGroups, valSrvGroups, valConnCheck, valAccess] at h
+    valQueryLog, valFltGroups, valSrvGroups, valConnCheck, valAccess, valConnN] at h
   cases f <;> simp [violates] <;> first | omega | (simp_all; done) | (simp_all; omega) | grind
 
 /-! ### "The reported property is an offending one", section by section -/
@@ -227,6 +250,15 @@ theorem names_srvgroups (c : Config) (f : F) (k : Kind) (h : (f, k) ∈ valSrvGr
   simp [valSrvGroups, mem_firstOf_cons, mem_sect_iff, mem_valPorts] at h
   cases f <;> simp [violates] at h ⊢ <;> first | omega | (simp_all; done) | (simp_all; omega) | grind
 
+theorem names_connN (c : Config) (f : F) (k : Kind) (h : (f, k) ∈ valConnN false c) :
+    violates c f = true := by
+  unfold valConnN at h
+  split at h
+  · simp at h
+  · split at h
+    · simp at h; obtain ⟨rfl, rfl⟩ := h; simp_all [violates]
+    · simp at h
+
 theorem names_conncheck (c : Config) (f : F) (k : Kind) (h : (f, k) ∈ valConnCheck c) :
     violates c f = true := by
   simp [valConnCheck, mem_firstOf_cons, mem_sect_iff] at h
@@ -273,5 +305,95 @@ theorem names_network (c : Config) (f : F) (k : Kind) (h : (f, k) ∈ valNetwork
     violates c f = true := by
   simp [valNetwork, mem_firstOf_cons, mem_sect_iff] at h
   cases f <;> simp [violates] at h ⊢ <;> first | omega | (simp_all; done) | (simp_all; omega) | grind
+
+/-! ### The stream listeners against C18's model of the connection limiter (`Agd.ConnLimit`) -/
+section Limiter
+open Agd.ConnLimit
+
+theorem run_app (v : Variant) (s : St) (a b : List Op) : ConnLimit.run v s (a ++ b) = ConnLimit.run v (ConnLimit.run v s a) b := by
+  induction a generalizing s with
+  | nil => rfl
+  | cons o r ih => simp [ConnLimit.run, ih]
+
+/-- While there is room below `stop`, every acceptor passes the limiter. -/
+theorem run_accepts_room (ls : List Nat) (s : St) (hcl : s.closed = []) (hs : s.c.stop < two64)
+    (hacc : ls ≠ [] → s.c.accepting = true) (hroom : s.c.current + ls.length ≤ s.c.stop) :
+    (ConnLimit.run repaired s (ls.map Op.accept)).pending = s.pending ++ ls ∧
+    (ConnLimit.run repaired s (ls.map Op.accept)).waitq = s.waitq ∧
+    (ConnLimit.run repaired s (ls.map Op.accept)).closed = [] ∧
+    (ConnLimit.run repaired s (ls.map Op.accept)).c.current = s.c.current + ls.length ∧
+    (ConnLimit.run repaired s (ls.map Op.accept)).c.stop = s.c.stop ∧
+    (ls ≠ [] → (ConnLimit.run repaired s (ls.map Op.accept)).c.accepting = decide (s.c.current + ls.length < s.c.stop)) := by
+  induction ls generalizing s with
+  | nil => simp [ConnLimit.run, hcl]
+  | cons l r ih =>
+    have ha : s.c.accepting = true := hacc (by simp)
+    simp only [List.length_cons] at hroom
+    have hmod : (s.c.current + 1) % two64 = s.c.current + 1 := Nat.mod_eq_of_lt (by omega)
+    have hstep : (step repaired s (.accept l)).1 =
+        { s with c := { s.c with current := s.c.current + 1, accepting := decide (s.c.current + 1 < s.c.stop) },
+                 pending := s.pending ++ [l] } := by
+      simp [step, attempt, repaired, hcl, Counter.increment, ha, hmod]
+    simp only [List.map_cons, ConnLimit.run]
+    rw [hstep]
+    have := ih { s with c := { s.c with current := s.c.current + 1, accepting := decide (s.c.current + 1 < s.c.stop) },
+                        pending := s.pending ++ [l] } hcl hs
+      (by intro hr; have : 0 < r.length := List.length_pos_iff.mpr hr; simp; omega) (by simp; omega)
+    obtain ⟨h1, h2, h3, h4, h5, h6⟩ := this
+    refine ⟨by simp [h1], by simp [h2], h3, by simp [h4]; omega, by simp [h5], ?_⟩
+    intro _
+    by_cases hr : r = []
+    · subst hr; simp [ConnLimit.run]
+    · rw [h6 hr]; simp; omega
+
+/-- Once the limiter is closed, every further acceptor is parked and nothing else changes. -/
+theorem run_accepts_full (ls : List Nat) (s : St) (hcl : s.closed = []) (hacc : s.c.accepting = false) :
+    (ConnLimit.run repaired s (ls.map Op.accept)).pending = s.pending ∧
+    (ConnLimit.run repaired s (ls.map Op.accept)).waitq = s.waitq ++ ls ∧
+    (ConnLimit.run repaired s (ls.map Op.accept)).woken = s.woken ∧
+    (ConnLimit.run repaired s (ls.map Op.accept)).c = s.c := by
+  induction ls generalizing s with
+  | nil => simp [ConnLimit.run]
+  | cons l r ih =>
+    have hstep : (step repaired s (.accept l)).1 = { s with waitq := s.waitq ++ [l] } := by
+      simp [step, attempt, repaired, hcl, Counter.increment, hacc]
+    simp only [List.map_cons, ConnLimit.run]
+    rw [hstep]
+    obtain ⟨h1, h2, h3, h4⟩ := ih { s with waitq := s.waitq ++ [l] } hcl hacc
+    exact ⟨by simp [h1], by simp [h2], by simp [h3], by simp [h4]⟩
+
+/-- With `stop` at least the number of listeners, every listener reaches its `Accept`. -/
+theorem limStart_all (stop resume n : Nat) (hs : stop < two64) (hn : n ≤ stop) :
+    limStart stop resume n = (n, 0) := by
+  have h := run_accepts_room (List.range n) (init stop resume) rfl hs (fun _ => rfl) (by simp [init]; omega)
+  have h1 := h.1; have h2 := h.2.1
+  simp only [init] at h1 h2
+  simp [limStart, init, h1, h2]
+
+/-- With `stop` below the number of listeners, only `stop` of them ever reach their `Accept`; the
+others are parked, the counter does not accept and nobody is left to wake them. -/
+theorem limStart_starved (stop resume n : Nat) (hs : stop < two64) (h0 : 0 < stop) (hn : stop < n) :
+    limStart stop resume n = (stop, n - stop) := by
+  have hsplit : List.range n = (List.range n).take stop ++ (List.range n).drop stop :=
+    (List.take_append_drop _ _).symm
+  have hlen : ((List.range n).take stop).length = stop := by simp; omega
+  have hne : (List.range n).take stop ≠ [] := by
+    intro h; rw [h] at hlen; simp at hlen; omega
+  obtain ⟨a1, a2, a3, a4, a5, a6⟩ :=
+    run_accepts_room ((List.range n).take stop) (init stop resume) rfl hs (fun _ => rfl)
+      (by simp [init]; omega)
+  have hacc := a6 hne
+  rw [hlen] at hacc
+  have hacc' : (ConnLimit.run repaired (init stop resume) (((List.range n).take stop).map Op.accept)).c.accepting = false := by
+    rw [hacc]; simp [init]
+  obtain ⟨b1, b2, _, _⟩ :=
+    run_accepts_full ((List.range n).drop stop) _ a3 hacc'
+  have e1 : (ConnLimit.run repaired (init stop resume) ((List.range n).map Op.accept)).pending.length = stop := by
+    rw [hsplit, List.map_append, run_app, b1, a1]; simp [init]; omega
+  have e2 : (ConnLimit.run repaired (init stop resume) ((List.range n).map Op.accept)).waitq.length = n - stop := by
+    rw [hsplit, List.map_append, run_app, b2, a2]; simp [init]
+  simp only [limStart, e1, e2]
+
+end Limiter
 
 end Agd.Config
